@@ -143,8 +143,15 @@ func (x *actorSystem) Spawn(ctx context.Context, name string, actor Actor, opts 
 		}
 
 		if pidNode, exist := x.actors.nodeByName(name); exist {
-			if pid := pidNode.value(); pid != nil && pid.IsRunning() {
-				return pid, nil
+			if pid := pidNode.value(); pid != nil {
+				if pid.IsRunning() {
+					return pid, nil
+				}
+				// The name is still held by an actor that is stopping, suspended or
+				// not yet reaped by the death watch. A second instance could not be
+				// inserted under the same id: it would run outside the tree and the
+				// caller would be handed the dying one.
+				return nil, gerrors.NewErrActorAlreadyExists(name)
 			}
 		}
 
@@ -191,8 +198,15 @@ func (x *actorSystem) SpawnNamedFromFunc(ctx context.Context, name string, recei
 		}
 
 		if pidNode, exist := x.actors.nodeByName(name); exist {
-			if pid := pidNode.value(); pid != nil && pid.IsRunning() {
-				return pid, nil
+			if pid := pidNode.value(); pid != nil {
+				if pid.IsRunning() {
+					return pid, nil
+				}
+				// The name is still held by an actor that is stopping, suspended or
+				// not yet reaped by the death watch. A second instance could not be
+				// inserted under the same id: it would run outside the tree and the
+				// caller would be handed the dying one.
+				return nil, gerrors.NewErrActorAlreadyExists(name)
 			}
 		}
 
@@ -848,8 +862,12 @@ func (x *actorSystem) spawnSingletonOnLocal(ctx context.Context, name string, ac
 		// A running local instance already satisfies the singleton contract; return
 		// it instead of creating (and immediately discarding) a duplicate.
 		if node, exist := x.actors.nodeByName(name); exist {
-			if pid := node.value(); pid != nil && pid.IsRunning() {
-				return pid, nil
+			if pid := node.value(); pid != nil {
+				if pid.IsRunning() {
+					return pid, nil
+				}
+				// still held by a stopping, suspended or not yet reaped instance
+				return nil, gerrors.NewErrActorAlreadyExists(name)
 			}
 		}
 
